@@ -105,6 +105,10 @@ def oracle_dir(runs):
                               what="the restarted node never accepted a write"))
             return fails, stats
         dumpv = r.get("dump") or []
+        if dumpv and dumpv[0].startswith("DUMP-ERROR") and r["spec"].startswith("S:") and r.get("death") == "crashpoint":
+            # the crash point armed through the environment fired while the dump was being read: nothing verified in this run
+            pending.append((mk["cmd"], "ack", mk["reply"]))
+            continue
         if dumpv and dumpv[0].startswith("DUMP-ERROR"):
             fails.append(dict(name="dumperr-d%d-r%d" % (r["dir"], r["run"]), case=dict(ident, dump=dumpv), what="reading the restarted node failed: " + dumpv[0]))
             return fails, stats
